@@ -38,6 +38,11 @@ def build_case(ck, case):
             v, e, c = impl.quiet(sk.create_lattice)
             v, e, c, _ = impl.quiet(ve.generate_mesh, v, e, c, ne=case.get("ne", 6))
         return (v, e, c), None, None
+    if case.get("kind") == "lens":
+        # a cell with exactly two neighbours: two interfaces between the same pair of junctions (statics.build_lens)
+        import statics
+        sc = statics.build_lens(case)
+        return (sc.bm.vertices, sc.bm.edges, sc.bm.cells), None, None
     if case["kind"] in ("square", "brick"):
         topo = gen.lattice_topo(case["kind"], case.get("nx", 3), case.get("ny", 3))
     else:
@@ -216,6 +221,13 @@ def run(ck):
                           "kmax": [0, 0, 2][i % 3], "relabel": i % 2, "p_rev": 0.3})
         # square lattice with a hole: two-point interfaces on the hole's rim join junctions of three cells (finding D27)
         cases.append({"type": "voronoi", "seed": 5, "sites": 0, "kind": "square", "nx": 3, "ny": 3, "mask": 0b111101111, "kmax": 0, "relabel": 0, "p_rev": 0.0})
+        for i in range(4 if ck.tier == "quick" else 20):
+            ku = int(ck.rng.integers(1, 6))
+            kl = [0, int(ck.rng.integers(1, 6))][i % 2]
+            if kl == ku:
+                kl += 1
+            cases.append({"type": "voronoi", "kind": "lens", "seed": int(ck.rng.integers(1 << 30)), "k_upper": ku, "k_lower": kl, "h_upper": 1.4, "h_lower": 0.9,
+                          "angle": float(ck.rng.uniform(0, 6.28)), "scale": 1.0, "shift": [0.0, 0.0], "shuffle_cells": bool(i % 2), "p_rev": [0.0, 0.5][i % 2], "shifts": True})
         fixtures = ["tests/data/initial_furrow.dmp", "tests/data/last_furrow.dmp", "tests/data/furrow_gauss_velocity/stage3.dmp"]
         for f in fixtures:
             cases.append({"type": "fixture", "seed": 0, "path": f})
